@@ -22,7 +22,7 @@ def _alarm(signum, frame):
     raise _Hang()
 
 
-def _guard(fn, what):
+def _guard(fn, what, sig=None):
     """Run fn under a watchdog far above the normal latency (the statement says the call terminates)."""
     signal.signal(signal.SIGALRM, _alarm)
     signal.setitimer(signal.ITIMER_REAL, WATCHDOG, 5.0)
@@ -32,7 +32,7 @@ def _guard(fn, what):
         finally:
             signal.setitimer(signal.ITIMER_REAL, 0)
     except _Hang:
-        raise Violation("%s did not return within %.0f s" % (what, WATCHDOG), signature=["real-hang"])
+        raise Violation("%s did not return within %.0f s" % (what, WATCHDOG), signature=sig or ["real-hang"])
     except Exception as e:
         return "raise", e
 
@@ -173,7 +173,7 @@ def run_c04(spec):
                 os.unlink(logpath)
             base = 1000 * ci
             where = _where(spec, ci, call)
-            kind, val = _guard(lambda: list(par(_items(call, base, logpath, call.get("gen_input")))), where)
+            kind, val = _guard(lambda: list(par(_items(call, base, logpath, call.get("gen_input")))), where, ["real-hang", spec["backend"]])
             fail = {int(k): v for k, v in call["fail"].items()}
             if fail:
                 if kind != "raise":
